@@ -326,7 +326,7 @@ PLANS["C07"] = P(
     [{"driver": "fuzz", "args": {"n": 60}}, {"driver": "replay", "scn": "MC_malformed", "args": {"n": 500, "matrix": 0}},
      {"driver": "rich", "args": {"n": 400, "depth": 6, "arbsel": 0.7, "xfmt": 1}}],
     [{"driver": "fuzz", "args": {"n": 2500}}, {"driver": "replay", "scn": "MC_malformed", "args": {"n": 100000, "matrix": 0}},
-     {"driver": "rich", "args": {"n": 20000, "depth": 8, "arbsel": 0.7, "xfmt": 1}}],
+     {"driver": "rich", "args": {"n": 8000, "depth": 7, "arbsel": 0.7, "xfmt": 1}}],
     required={"total": 20000},
     nontrivial_event="Call",
     rule="cases = calls of the four public entry points: random byte / ASCII / envelope-shaped strings (<= 2 KB) in both formats; structural mutations of valid SD-JWTs (parts dropped, "
